@@ -2,6 +2,7 @@
 (shared by C04 and C05; DESIGN §3 C04/C05)."""
 from __future__ import annotations
 
+import asyncio
 from collections import Counter, deque
 
 from vf.ref.router import BLOB_KINDS, CLIENT_KINDS, DEVICE_KINDS, Model
@@ -106,6 +107,7 @@ class Real:
         real = self
         # every second client and the catch-all device are "empty containers" (falsy)
         self.falsy = set(uni.clients[1::2]) | {d for d in uni.devices if d == "*"}
+        self.loop = None
 
         def react(side, eid, endpoint, message):
             r = real.reactions.get((side, eid))
@@ -159,7 +161,23 @@ class Real:
         raise LookupError(f"device {did!r} was registered with the router but the router no longer knows it")
 
     def apply(self, op):
-        """Returns (deliveries as sorted list, exception or None)."""
+        """Returns (deliveries as sorted list, exception or None).  With `self.loop` set the operation is executed INSIDE a running
+        event loop (as the transports do) and the loop is drained before the deliveries are read: a router that defers a delivery
+        to the loop is then still observed."""
+        if getattr(self, "loop", None) is not None and not getattr(self, "_in_loop", False):
+            async def run():
+                self._in_loop = True
+                try:
+                    out = self.apply(op)
+                finally:
+                    self._in_loop = False
+                before = len(self.log)
+                for _ in range(3):
+                    await asyncio.sleep(0)
+                if len(self.log) != before:
+                    out = (sorted((side, eid) for side, eid, m in self.log), out[1], out[2])
+                return out
+            return self.loop.run_until_complete(run())
         del self.log[:]
         self.armed = set(self.reactions)
         kind = op[0]
@@ -425,6 +443,9 @@ def random_history(ctx, uni, judge, i, length):
     rng = ctx.rng("hist", i)
     ex = Explorer(ctx, uni, judge, {"mode": "random", "i": i, "length": length, "uni": [uni.devices, uni.clients]})
     real = Real(uni)
+    if i % 2:
+        real.loop = asyncio.new_event_loop()
+        ctx.count("histories_inside_a_running_event_loop")
     model = Model(uni.accepts())
     history = []
     for step in range(length):
@@ -442,6 +463,8 @@ def random_history(ctx, uni, judge, i, length):
             op = rng.choice(pops)
         ex.compare(real, model, op, history)
         history.append(op)
+    if real.loop is not None:
+        real.loop.close()
     ctx.count("random_histories")
     if i % 50 == 0:
         ctx.sample({"random_history": [list(o) for o in history[:25]]})
